@@ -56,13 +56,14 @@ pub struct Oracles {
     pub c06: bool,
     pub c14: bool,
     pub c19: bool,
+    pub c11: bool,
 }
 
 impl Oracles {
     pub fn all() -> Self {
         Oracles {
             c01: true, c02: true, c03: true, c04: true, c05: true,
-            c06: true, c14: true, c19: true,
+            c06: true, c14: true, c19: true, c11: true,
         }
     }
 }
@@ -443,6 +444,47 @@ impl Runner {
                 ).map_err(err_string);
                 Self::label(&res)
             }
+            Op::RrdpSessionReset { inst } => {
+                let i = self.world.inst(inst);
+                i.enter();
+                let res = block_on(i.mgr().repository_session_reset())
+                    .map_err(err_string);
+                if res.is_ok() {
+                    crate::c11::note_session_reset(self);
+                }
+                Self::label(&res)
+            }
+            Op::RestartRrdp {
+                inst, min_nr, max_nr, min_seconds, max_seconds, interval
+            } => {
+                if !self.world.inst(inst).cfg.disk {
+                    return "skip:memory".into()
+                }
+                self.world.insts[inst].stop();
+                {
+                    let cfg = &mut self.world.insts[inst].cfg.rrdp;
+                    cfg.min_nr = min_nr;
+                    cfg.max_nr = max_nr;
+                    cfg.min_seconds = min_seconds;
+                    cfg.max_seconds = max_seconds;
+                    cfg.interval_min_seconds = interval;
+                }
+                crate::c11::note_config_change(self);
+                match self.world.insts[inst].start() {
+                    Ok(()) => {
+                        self.stat("restart");
+                        "ok".into()
+                    }
+                    Err(err) => {
+                        self.violation(
+                            "C08", "restart_failed",
+                            format!("instance does not start: {err}")
+                        );
+                        self.dead = Some(format!("restart failed: {err}"));
+                        format!("err:{err}")
+                    }
+                }
+            }
             Op::Advance { secs } => {
                 self.world.advance(secs);
                 format!("t+{secs}")
@@ -480,6 +522,9 @@ impl Runner {
             Guarded::Ok(true) => {
                 self.sync_model_after_pump();
                 self.check_caught_up();
+                if self.oracles.c11 {
+                    crate::c11::at_caught_up(self);
+                }
                 "caught_up".into()
             }
             Guarded::Ok(false) => {
